@@ -1,0 +1,33 @@
+//! C08 (data updating): read-only views of the state that `update_P/q/A/b` write to.
+//! Built on the accessors added for C11 / C12 (no casts, nothing is modified).
+#![allow(non_snake_case)]
+use crate::solver::DefaultSolver;
+
+/// cached unscaled inf-norms (normq, normb) of the linear terms, as stored
+pub fn norm_caches(solver: &DefaultSolver<f64>) -> (Option<f64>, Option<f64>) {
+    solver.data.verif_c08_norm_caches()
+}
+/// nonzero values of the live (unpermuted) KKT matrix
+pub fn kkt_nzval(solver: &DefaultSolver<f64>) -> Vec<f64> {
+    solver
+        .kktsystem
+        .verif_direct()
+        .map(|d| d.verif_KKT().nzval.clone())
+        .unwrap_or_default()
+}
+/// (mapP, mapA): positions in KKT.nzval of the entries of P.nzval / A.nzval
+pub fn kkt_maps(solver: &DefaultSolver<f64>) -> (Vec<usize>, Vec<usize>) {
+    match solver.kktsystem.verif_direct() {
+        Some(d) => (d.verif_map().P.clone(), d.verif_map().A.clone()),
+        None => (vec![], vec![]),
+    }
+}
+/// values of the LDL backend's own copy at the given KKT positions (QDLDL only)
+pub fn backend_values(solver: &DefaultSolver<f64>, index: &[usize]) -> Option<Vec<f64>> {
+    let (vals, map) = solver.kktsystem.verif_direct()?.verif_ldl_copy()?;
+    Some(index.iter().map(|&i| vals[map[i]]).collect())
+}
+/// (presolver active, chordal decomposition active)
+pub fn structure_flags(solver: &DefaultSolver<f64>) -> (bool, bool) {
+    (solver.data.is_presolved(), solver.data.is_chordal_decomposed())
+}
